@@ -211,6 +211,11 @@ func (a *asyncFifoRetryImpl) retry(ctx context.Context) (breakLoop bool) {
 			state = retryFailedPut
 			if errors.Is(err, storage.ErrUncertainResult) {
 				state = retryUnknownPut
+				// the outcome of the repair is unknown too: if it did not land, the key is still at the
+				// revision this entry names and nothing but this entry can repair it (the entry queued
+				// for the repair itself names the repair's revision), so keep it and look again in
+				// the next tick; if it did land, this entry is dropped then as "no need to fix".
+				return true
 			}
 		}
 	}
